@@ -3,5 +3,5 @@ CONSTANTS
   Alpha = {0, 1, 64}
   MaxLen = 9
   MidGuard = TRUE
-INVARIANTS StreamIsDef LenOK RoundTripN FillIsCR ImplAllowed
+INVARIANTS StreamIsDef FastIsDef LenOK RoundTripN FillIsCR ImplAllowed
 CHECK_DEADLOCK FALSE
